@@ -574,4 +574,48 @@ theorem afterSplit_fuel (st : St) (v lid rid : Nat) :
     · simp only [St.insertBlock]
       exact (mergeAcross_frame _ v).2.2
 
+/-- the tail of `splitBetween` once the split constraint `sc` has been chosen -/
+theorem splitTail_J (st : St) (v sc lb : Nat)
+    (hlb : lb = blk st.vars (st.cons[sc]!).l)
+    (hH : InvC st.vars st.cons st.blocks.size (st.inactive.push v))
+    (hact : (st.cons[sc]!).active = true)
+    (hside1 : ReachAvoid st.cons sc (st.cons[sc]!).l (st.cons[v]!).l)
+    (hside2 : ReachAvoid st.cons sc (st.cons[sc]!).r (st.cons[v]!).r) :
+    J ((st.splitOn lb sc).1.incSplitBetween.afterSplit v (st.splitOn lb sc).2.1 (st.splitOn lb sc).2.2) := by
+  subst hlb
+  by_cases hfo : (st.splitOn (blk st.vars (st.cons[sc]!).l) sc).1.fuelOut = true
+  · left
+    rw [afterSplit_fuel]
+    exact hfo
+  · have hfo' : (st.splitOn (blk st.vars (st.cons[sc]!).l) sc).1.fuelOut = false := by simpa using hfo
+    obtain ⟨c1, c2, c3, c4, c5, _, c7⟩ := splitOn_core st sc (st.inactive.push v) hH hact hfo'
+    generalize hq : st.splitOn (blk st.vars (st.cons[sc]!).l) sc = q at *
+    have hH' : InvC q.1.incSplitBetween.vars q.1.incSplitBetween.cons q.1.incSplitBetween.blocks.size
+        (q.1.incSplitBetween.inactive.push v) := by
+      simp only [St.incSplitBetween]
+      rw [c5]
+      refine InvC.congr_inactive ?_ c1
+      intro j
+      simp only [Array.mem_push]
+      tauto
+    have hv' : v < q.1.incSplitBetween.cons.size :=
+      hH'.inact_lt v (Array.mem_push.2 (Or.inr rfl))
+    have hdata : (q.1.incSplitBetween.cons[v]!).l = (st.cons[v]!).l ∧
+        (q.1.incSplitBetween.cons[v]!).r = (st.cons[v]!).r := by
+      simp only [St.incSplitBetween]
+      rw [c7, cons_set_get]
+      split
+      · rename_i hh
+        obtain ⟨rfl, _⟩ := hh
+        exact ⟨rfl, rfl⟩
+      · exact ⟨rfl, rfl⟩
+    have hne : blk q.1.incSplitBetween.vars (q.1.incSplitBetween.cons[v]!).l ≠
+        blk q.1.incSplitBetween.vars (q.1.incSplitBetween.cons[v]!).r := by
+      rw [hdata.1, hdata.2]
+      simp only [St.incSplitBetween]
+      rw [c2 _ hside1, c3 _ hside2]
+      exact c4
+    obtain ⟨_, hinv⟩ := afterSplit_J q.1.incSplitBetween v q.2.1 q.2.2 hH' hv' hne
+    exact Or.inr hinv
+
 end AdaptaVerif.Lemmas.VpscLoop
